@@ -197,6 +197,8 @@ func TestExhaustive(t *testing.T) {
 
 // ---- random tables ----
 
+// the pools contain, besides ordinary segments, the words the implementation uses internally as trie keys (":param",
+// ":any", method tags): a collision between the literal and the internal namespaces must not be reachable from a request
 var litPool = []string{"a", "b", "ab", "a.b", "*x", "%2F", "static", "favicon.ico", "c", "x", "get", ":", "é", "a b", "**", "A", "a-rather-long-literal-segment-0123456789"}
 var paramPool = []string{":x", ":y", ":id", ":", ":x"}
 var methodPool = append(append([]string{}, rm.Methods...), "*", "*", "GET", "GET", "POST")
@@ -269,12 +271,12 @@ func genRequestPath(routes []rm.Route) *rapid.Generator[string] {
 					sb.WriteString(e.Text)
 				}
 			case rm.Param:
-				sb.WriteString(rapid.SampledFrom([]string{"v", "a", "b", "42", ":x", "*", "", "é", "a b", "x.y"}).Draw(t, "pval"))
+				sb.WriteString(rapid.SampledFrom([]string{"v", "a", "b", "42", ":x", "*", "", "é", "a b", "x.y", ":param", ":any", ":id", "get", "*x"}).Draw(t, "pval"))
 			case rm.Any:
 				k := rapid.IntRange(0, 4).Draw(t, "tail")
 				var parts []string
 				for j := 0; j < k; j++ {
-					parts = append(parts, rapid.SampledFrom([]string{"t", "", "a", "*", ":x", "long-tail-segment"}).Draw(t, "tailseg"))
+					parts = append(parts, rapid.SampledFrom([]string{"t", "", "a", "*", ":x", "long-tail-segment", ":any", ":param", "post"}).Draw(t, "tailseg"))
 				}
 				sb.WriteString(strings.Join(parts, "/"))
 			}
@@ -298,7 +300,7 @@ func genRequestPath(routes []rm.Route) *rapid.Generator[string] {
 		var sb strings.Builder
 		for i := 0; i < n; i++ {
 			sb.WriteString("/")
-			sb.WriteString(rapid.SampledFrom(append([]string{"", "", ":x", "*", "v"}, litPool...)).Draw(t, "seg"))
+			sb.WriteString(rapid.SampledFrom(append([]string{"", "", ":x", "*", "v", ":param", ":any", "param", "any", "get", "post", "head"}, litPool...)).Draw(t, "seg"))
 		}
 		return sb.String()
 	})
